@@ -380,10 +380,17 @@ def strat_dispatch1d(tier):
                      _vals(-2, 2, 1, 8), _vals(-2, 2, 1, 8), _vals(-3, 3, 1, 8),
                      st.lists(gen.f(0, 1), min_size=3, max_size=3), st.lists(gen.f(0, 1), min_size=3, max_size=3),
                      st.sampled_from(cases.flux_names(dict(name="euler1d"))),
-                     st.lists(gen.f(-1, 1), min_size=3, max_size=3), st.lists(gen.f(-1, 1), min_size=3, max_size=3))
+                     st.lists(gen.f(-1, 1), min_size=3, max_size=3), st.lists(gen.f(-1, 1), min_size=3, max_size=3)).flatmap(
+        lambda c: st.builds(lambda num: dict(c, num=num), st.one_of(st.just(dict(name="extrapol1")), st.just(dict(name="extrapol1")), gen.num_unlimited(), gen.num_muscl())))
+
+
+HIGH_ORDER_BC = ["sym", "insub", "insup", "outsub", "outsub_prim", "outsub_rh", "outsub_nrcbc", "outsup", "dirichlet"]
 
 
 def check_dispatch1d(case):
+    num = case.get("num", dict(name="extrapol1"))
+    if num["name"] != "extrapol1":
+        return _dispatch1d_highorder(case, num)
     g, n = case["gamma"], case["n"]
     md = dict(name="euler1d", gamma=g)
     model = cases.build_model(md)
@@ -435,6 +442,54 @@ def check_dispatch1d(case):
         w = max(w, b)
     target(w, "bc-error/tol")
     return dict(nontrivial=nt, labels=["bcL:" + case["bcL"], "bcR:" + case["bcR"], "n=1" if n == 1 else "n>1"])
+
+
+def _dispatch1d_highorder(case, num):
+    """with an extrapolating reconstruction the condition is applied to the interior FACE state (what the numerical flux sees on the inner side
+    of the boundary face): the exterior face state must meet its definition with respect to that state"""
+    g = case["gamma"]
+    n = max(case["n"], 3)
+    md = dict(name="euler1d", gamma=g)
+    model = cases.build_model(md)
+    idx = np.arange(n)
+    # moderate variations so that extrapolated face states stay admissible
+    rho = np.exp(0.1 * np.array(case["lnrho"])[idx % len(case["lnrho"])])
+    p = np.exp(0.1 * np.array(case["lnp"])[idx % len(case["lnp"])])
+    m = 0.3 * np.array(case["mach"])[idx % len(case["mach"])]
+    c = np.sqrt(g * p / rho)
+    prim = [rho, m * c, p]
+    tL = case["bcL"] if case["bcL"] in HIGH_ORDER_BC else "outsub_rh"
+    tR = case["bcR"] if case["bcR"] in HIGH_ORDER_BC else "insub"
+    mesh = cases.build_mesh(dict(kind="uni", n=n, length=1.0, x0=0.0))
+    f = cases.build_field(model, mesh, cases.cons_from_prim(md, prim))
+    # interior face states do not depend on the boundary type (boundary gradients are zero): read them from a first pass with copy conditions
+    disc0 = cases.build_disc(model, mesh, num, case["flux"], {"type": "outsup"}, {"type": "outsup"})
+    disc0.rhs(f)
+    inL = [np.array([float(disc0.pR[k][0])]) for k in range(3)]
+    inR = [np.array([float(disc0.pL[k][n])]) for k in range(3)]
+    if not all(np.isfinite(x[0]) for x in inL + inR) or min(inL[0][0], inL[2][0], inR[0][0], inR[2][0]) <= 0:
+        from vf.runner import Skip
+        raise Skip("inadmissible_reconstruction (extrapolated face state outside the admissible set)")
+
+    def par_for(bc, d, inner, e, dp):
+        if bc == "dirichlet":
+            return dict(prim=[math.exp(dp[0]), dp[1], math.exp(dp[2])])
+        return make_params(g, bc, d, inner, e)
+    parL, parR = par_for(tL, -1, inL, case["eL"], case["dL"]), par_for(tR, 1, inR, case["eR"], case["dR"])
+    disc = cases.build_disc(model, mesh, num, case["flux"], dict(parL, type=tL), dict(parR, type=tR))
+    disc.rhs(f)
+    w, nt = 0.0, False
+    for side, d, bc, par, inner_ref, inner, state in (("left", -1.0, tL, parL, inL, [disc.pR[k][0] for k in range(3)], [disc.pL[k][0] for k in range(3)]),
+                                                      ("right", 1.0, tR, parR, inR, [disc.pL[k][n] for k in range(3)], [disc.pR[k][n] for k in range(3)])):
+        inner = [np.array([float(x)]) for x in inner]
+        for k in range(3):
+            require(abs(inner[k][0] - inner_ref[k][0]) <= 1e-13 * (abs(inner_ref[k][0]) + (float(c[0]) if k == 1 else 0)), "dispatch-interior-face",
+                    "the interior state of the %s boundary face depends on the boundary type" % side)
+        a, b = judge_euler(g, bc, d, inner, [np.array([float(x)]) for x in state], par, "fvm1d %s boundary (%s reconstruction, interior FACE state)" % (side, num.get("limiter", num["name"])))
+        nt = nt or a
+        w = max(w, b)
+    target(w, "bc-error/tol")
+    return dict(nontrivial=nt, labels=["bcL:" + tL, "bcR:" + tR, "highorder:" + num.get("limiter", num["name"])])
 
 
 # ---------------------------------------------------------------- dispatch, 2-D
